@@ -22,6 +22,24 @@
 #include "values.h"
 #include "layout.h"
 
+/* allocation failure injection (harness link: -Wl,--wrap=realloc,--wrap=strdup): armed only around a call into the
+ * library; the fail_alloc-th realloc/strdup of that call fails */
+static int fail_pending, fail_alloc;
+extern void *__real_realloc(void *, size_t);
+extern char *__real_strdup(const char *);
+void *__wrap_realloc(void *p, size_t n)
+{
+	if (fail_alloc > 0 && !--fail_alloc) return 0;
+	return __real_realloc(p, n);
+}
+char *__wrap_strdup(const char *s)
+{
+	if (fail_alloc > 0 && !--fail_alloc) return 0;
+	return __real_strdup(s);
+}
+static void fail_arm(void) { fail_alloc = fail_pending; fail_pending = 0; }
+static void fail_disarm(void) { fail_alloc = 0; }
+
 enum { K_AXIS, K_LINE, K_TEXT, K_GRAPH, K_WORLD, K_COUNT };
 static const char *kind_names[] = { "axis", "line", "text", "graph", "world" };
 
@@ -170,6 +188,25 @@ static void put_value(const MPT_STRUCT(value) *val)
 	}
 	else printf("type?:%ld", (long) t);
 }
+/* convertable that answers the type 's' only (no character vector) */
+struct str_conv {
+	MPT_INTERFACE(convertable) _conv;
+	const char *txt;
+};
+static int str_convert(MPT_INTERFACE(convertable) *c, MPT_TYPE(type) type, void *dest)
+{
+	struct str_conv *s = (struct str_conv *) c;
+	if (!type) {
+		static const uint8_t fmt[] = { 's', 0 };
+		if (dest) *((const uint8_t **) dest) = fmt;
+		return 's';
+	}
+	if (type != 's') return MPT_ERROR(BadType);
+	if (dest) *((const char **) dest) = s->txt;
+	return 's';
+}
+static const MPT_INTERFACE_VPTR(convertable) str_ctl = { str_convert };
+
 /* every listed property by position */
 static void put_dump(const struct obj *ob)
 {
@@ -187,6 +224,12 @@ static void put_dump(const struct obj *ob)
 		}
 		printf("%s%s=", any ? " " : "", pr.name ? pr.name : "?");
 		put_value(&pr.val);
+		any = 1;
+	}
+	/* member without a listed property: the style/limit bits of an axis (all of `format` but the log flag) */
+	if (ob->kind == K_AXIS) {
+		const MPT_STRUCT(axis) *ax = ob->data;
+		printf("%s~format=i:%d", any ? " " : "", ax->format & ~MPT_ENUM(TransformLg));
 		any = 1;
 	}
 	if (!any) fputc('-', stdout);
@@ -270,6 +313,47 @@ int main(void)
 			snprintf(buf, sizeof(buf), "ok k=%d", nobj++);
 			result(buf, ob, 0);
 		}
+		else if (!strcmp(op, "newf") && drv_nw == 4) {
+			/* an axis with style/limit bits as the C++ layer (axis::axis(AxisFlags)) creates it */
+			size_t fl;
+			struct obj *ob;
+			char buf[32];
+			if (strcmp(drv_w[2], "axis") || drv_parse_nat(drv_w[3], &fl) || fl > 31 || nobj >= MAXOBJ) { puts("bad-op"); continue; }
+			ob = &objs[nobj];
+			ob->_obj._vptr = &obj_ctl;
+			ob->kind = K_AXIS;
+			ob->data = malloc(kind_size(K_AXIS));
+			memset(ob->data, 0xbe, kind_size(K_AXIS));
+			kind_init(K_AXIS, ob->data);
+			((MPT_STRUCT(axis) *) ob->data)->format = fl;
+			snprintf(buf, sizeof(buf), "ok k=%d", nobj++);
+			result(buf, ob, 0);
+		}
+		else if (!strcmp(op, "fail") && drv_nw == 3) {
+			size_t n;
+			if (drv_parse_nat(drv_w[2], &n) || n < 1 || n > 4) { puts("bad-op"); continue; }
+			fail_pending = n;
+			result("ok", 0, 0);
+		}
+		else if (!strcmp(op, "sets") && drv_nw == 5) {
+			struct obj *ob = parse_obj(drv_w[2]);
+			char *name = parse_name(drv_w[3]);
+			uint8_t *dat = 0; size_t dlen = 0; int isnull = 0, ret;
+			struct str_conv sc;
+			char *val;
+			if (!ob || !name || !*name || drv_parse_data(drv_w[4], &dat, &dlen, &isnull) || isnull || memchr(dat, 0, dlen)) {
+				puts("bad-op"); free(name); free(dat); continue;
+			}
+			val = malloc(dlen + 1);
+			memcpy(val, dat, dlen); val[dlen] = 0;
+			sc._conv._vptr = &str_ctl;
+			sc.txt = val;
+			fail_arm();
+			ret = kind_set(ob->kind, ob->data, name, &sc._conv);
+			fail_disarm();
+			free(val); free(dat); free(name);
+			result(ret < 0 ? "refused" : "ok", ob, ret);
+		}
 		else if (!strcmp(op, "set") && drv_nw == 5) {
 			struct obj *ob = parse_obj(drv_w[2]);
 			char *name = parse_name(drv_w[3]);
@@ -288,7 +372,9 @@ int main(void)
 				}
 				char *val = malloc(dlen + 1);
 				memcpy(val, dat, dlen); val[dlen] = 0;
+				fail_arm();
 				ret = mpt_object_set_string(&ob->_obj, name, val, 0);
+				fail_disarm();
 				free(val);
 				free(dat);
 			}
@@ -372,7 +458,9 @@ int main(void)
 			if (!ob || !from) { puts("bad-op"); continue; }
 			sc._conv._vptr = &src_ctl;
 			sc.from = from;
+			fail_arm();
 			ret = kind_set(ob->kind, ob->data, "", &sc._conv);
+			fail_disarm();
 			if (ret < 0) result("refused", ob, ret);
 			else result_s(shares_string(ob, from) ? "ok owns=0" : "ok owns=1", ob, "ok");
 		}
